@@ -488,6 +488,38 @@ def seams_capture():
     return seams.capture_logs()
 
 
+def letter_like_neighbours():
+    """Non-ASCII characters the regex engine may take for an ASCII letter or digit: everything that matches
+    [a-z0-9] case-insensitively or \\d / \\w (computed by scanning Unicode once; a sample of each kind)."""
+    import re as _re
+
+    out = []
+    rx = _re.compile(r"[a-z0-9]", _re.IGNORECASE)
+    for cp in range(0x80, 0x30000):
+        if 0xD800 <= cp < 0xE000:
+            continue
+        c = chr(cp)
+        if rx.fullmatch(c):
+            out.append(c)              # case-folds onto an ASCII letter (Kelvin sign, long s, dotless i ...)
+    out += ["٣", "３", "é", "ß", "Ω", "上", "Ａ", "ａ", "़", "‿"]   # digits, letters, marks, connector punctuation
+    return list(dict.fromkeys(out))
+
+
+class NeighbourCharacters(LinesPart):
+    name = "non_ascii_neighbours"
+    desc = "address tokens directly next to every non-ASCII character the regex engine could take for a letter or digit (computed): such characters delimit"
+
+    def cases(self):
+        return [{"k": 0}]
+
+    def gen(self, case):
+        lines = []
+        for c in letter_like_neighbours():
+            for t in ("10.11.12.13", "2001:db8::1", "1.2.3.4.5", "FE80::AB", "::ffff:1.2.3.4"):
+                lines += [c + t, t + c, c + t + c, "temp 300%s%s ok" % (c, t), "neighbor %s%s up" % (t, c)]
+        return lines
+
+
 def parts(tier, seed):
     return [FixedPoints(tier, seed), ZeroRuns(tier, seed), V4Tokens(tier, seed), V6Tokens(tier, seed), V6Tails(tier, seed), Contexts(tier, seed),
-            Boundary(tier, seed), LongLines(tier, seed), Columns(tier, seed), BothDirections(tier, seed), WithAsNumbers(tier, seed)]
+            Boundary(tier, seed), LongLines(tier, seed), Columns(tier, seed), BothDirections(tier, seed), WithAsNumbers(tier, seed), NeighbourCharacters(tier, seed)]
